@@ -19,7 +19,7 @@ func init() {
 	Register(&Spec{
 		ID:        "C11",
 		Technique: "runtime monitoring: generate-then-read-back round-trip monitor over hclwrite's source generators (TokensForValue/Traversal, SetAttributeValue/Traversal, NewBlock/SetLabels)",
-		Rule: "each case draws a wholly-known finite value (strings over a hostile alphabet incl. template introducers, escapes, controls, combining marks and astral characters; numbers up to 150 significant digits and exponents to 4e3; nulls; nested list/set/map/tuple/object with keyword, non-identifier and empty keys in first and later positions), a traversal (attribute, string and number index steps) and 0-3 block labels; generates source through the writer API and reads it back with hclsyntax; " +
+		Rule: "each case draws a wholly-known finite value (strings over a hostile alphabet incl. template introducers, escapes, controls, combining marks and astral characters; numbers up to 150 significant digits and exponents to 4e3; nulls; nested list/set/map/tuple/object with keyword, non-identifier and empty keys in first and later positions), a traversal (attribute, string and number index steps) and 0-3 block labels; generates source through the writer API (the attribute route after a short history of calls on the same body: overwrite, rename into place, remove and re-add, rename away and back) and reads it back with hclsyntax; " +
 			"non-trivial = the value has a collection or a string needing an escape or a number outside float64; distinct by generated-source hash",
 		Assumptions: []string{"cty conversion (convert.Convert) and RawEquals define value equality", "hclsyntax parsing/evaluation of literals (monitored by C01/C02)"},
 		Quick:       Plan{Batches: 16, PerBatch: 2500, MinNonTrivial: 10000},
